@@ -211,8 +211,9 @@ Proof.
   - rewrite Nat.compare_gt_iff in *. lia.
 Qed.
 
-Lemma bool_compare_tp : TotalPreorder (fun a b : bool =>
-  match a, b with false, true => Lt | true, false => Gt | _, _ => Eq end).
+Definition bool_cmp (a b : bool) : comparison :=
+  match a, b with false, true => Lt | true, false => Gt | _, _ => Eq end.
+Lemma bool_cmp_tp : TotalPreorder bool_cmp.
 Proof.
   constructor; intros.
   - destruct x; reflexivity.
